@@ -1,3 +1,121 @@
-From Model Require Import Announce_Receiver.
-Theorem placeholder_C16 : True. Proof. exact I. Qed.
-Print Assumptions placeholder_C16.
+(* C16 -- Announce receiver shutdown never hangs.
+   Statements only.  The transition system (model/C16_ReceiverClose.v) covers any number
+   of goroutines calling Close, Direct, Next, UncacheCid in any interleaving, with or
+   without the pubsub watcher (`reach w s`: s is reachable by SOME schedule from the
+   initial state with (w = true) or without a watcher).  Partial: the tie of the
+   transition system to the Go code is the regenerated skeleton (first two theorems),
+   the sequential histories and the concurrent/pubsub scenarios run by harness/cmd/c16;
+   real goroutine scheduling is sampled, not enumerated. *)
+From Coq Require Import List NArith Bool Arith.
+From Lib Require Import SyncSkel LTS.
+From Model Require Import Announce_Receiver C16_ReceiverClose.
+From Proofs Require Import C16_ReceiverClose.
+From Gen Require Import Gen_Sync_announce.
+
+(* ---- tie to the source, re-checked against what announce/receiver.go says now ---- *)
+
+(* The synchronisation skeletons of Close, UncacheCid, Next, Direct, handleAnnounce,
+   announceCheck and watch, regenerated from the Go source by astgen on this run, have
+   the shape the transition system was written against (conditions aside). Finite. *)
+Theorem skeleton_matches : tie_ok announce_funcs = true.
+Proof. exact (eq_refl true). Qed.
+Print Assumptions skeleton_matches.
+
+(* "No return path of any of these calls leaves the receiver unusable": on EVERY path
+   of EVERY function of receiver.go / string_lru.go (finite set of paths of the
+   regenerated skeletons; loops taken zero times or once and required lock-neutral) every
+   mutex acquired is released before returning, no mutex is locked twice or unlocked
+   when not held, and no blocking operation (channel send/receive, select without default,
+   blocking callee) is executed while announceMutex is held. *)
+Theorem paths_balanced_and_nonblocking : balance_ok announce_funcs = true.
+Proof. exact (eq_refl true). Qed.
+Print Assumptions paths_balanced_and_nonblocking.
+
+(* ---- all schedules of the transition system ---- *)
+
+(* the mutex is held exactly by the thread inside a critical section ... *)
+Theorem mutex_held_iff : forall w s t th,
+  reach w s -> threads s t = Some th -> (in_cs (t_pc th) = true <-> mu s = Some t).
+Proof. exact mutex_held_iff. Qed.
+Print Assumptions mutex_held_iff.
+
+(* ... so it is free whenever no call is inside one: no call, however it returned,
+   leaves the receiver locked for the calls that follow *)
+Theorem mutex_free_when_idle : forall w s,
+  reach w s -> (forall t th, threads s t = Some th -> in_cs (t_pc th) = false) -> mu s = None.
+Proof. exact mutex_free_when_idle. Qed.
+Print Assumptions mutex_free_when_idle.
+
+(* whoever holds the mutex can take its next step whatever the others do *)
+Theorem holder_never_blocks : forall w s t, reach w s -> mu s = Some t -> enabled s t.
+Proof. exact holder_enabled. Qed.
+Print Assumptions holder_never_blocks.
+
+(* no deadlock, in any state reachable by any schedule: an unfinished call either can
+   step; or waits for the mutex, whose holder can step; or is Close waiting for the
+   watcher after having cancelled it, and the watcher can step or waits for the mutex
+   whose holder can step; or is one of the API's own waits (Next with nothing to deliver,
+   Direct with a full out channel -- receiver not closed, context live; the watcher
+   waiting for a pubsub message -- not cancelled) *)
+Theorem no_deadlock : forall w s t th,
+  reach w s -> threads s t = Some th -> is_fin (t_pc th) = false ->
+  enabled s t \/
+  (waits_for_mutex (t_pc th) = true /\ exists t', mu s = Some t' /\ enabled s t') \/
+  (t_pc th = ClWaitWatch /\ watch_cancelled s = true /\
+     exists wth, threads s 0 = Some wth /\ t_watcher wth = true /\ is_fin (t_pc wth) = false /\
+       (enabled s 0 \/ (waits_for_mutex (t_pc wth) = true /\ exists t', mu s = Some t' /\ enabled s t'))) \/
+  (t_pc th = NxSelect /\ done s = false /\ ctx_done s th = false /\ out s = None) \/
+  (t_pc th = DiSelect /\ done s = false /\ ctx_done s th = false /\ out s <> None) \/
+  (t_pc th = WaNext /\ watch_cancelled s = false /\ sub_cancelled s = false).
+Proof. exact progress. Qed.
+Print Assumptions no_deadlock.
+
+(* once Close has closed `done`, no Next or Direct waits any longer *)
+Theorem waiters_released_by_close : forall s t th,
+  threads s t = Some th -> done s = true -> (t_pc th = NxSelect \/ t_pc th = DiSelect) -> enabled s t.
+Proof. exact after_done_selects_enabled. Qed.
+Print Assumptions waiters_released_by_close.
+
+(* every own step brings a call strictly closer to returning (bounded own work:
+   "promptly" in the model), and does not touch the other calls *)
+Theorem own_steps_bounded : forall s t c s' th,
+  stepf s (Step t c) = Some s' -> threads s t = Some th ->
+  exists th', threads s' t = Some th' /\ (rank (t_pc th') < rank (t_pc th))%nat.
+Proof. exact rank_decreases. Qed.
+Print Assumptions own_steps_bounded.
+
+Theorem steps_do_not_interfere : forall s t c s' x,
+  stepf s (Step t c) = Some s' -> x <> t -> threads s' x = threads s x.
+Proof. exact step_frame. Qed.
+Print Assumptions steps_do_not_interfere.
+
+(* Close is idempotent and race-free: `done` and `watchDone` are closed at most once
+   (closing a closed channel would panic) under every schedule with any number of Close
+   callers *)
+Theorem close_never_panics : forall w s, reach w s -> panicked s = false.
+Proof. exact no_panic. Qed.
+Print Assumptions close_never_panics.
+
+(* a Close that returned normally has closed the receiver, released the waiters and
+   (with a topic) seen the watcher goroutine exit; a Close that found the receiver
+   already closed returns at once *)
+Theorem close_returned : forall w s t th,
+  reach w s -> threads s t = Some th -> t_watcher th = false -> t_call th = CClose ->
+  (t_pc th = Fin RetNil -> closed s = true /\ done s = true /\ (has_watcher s = true -> watch_done s = true)) /\
+  (t_pc th = Fin RetEarly -> closed s = true).
+Proof. exact close_returned. Qed.
+Print Assumptions close_returned.
+
+(* a Direct (from an allowed peer) that started after Close set `closed` returns the
+   closed error, whatever else happens; and closed / done never revert *)
+Theorem late_direct_gets_closed_error : forall w s t th c r,
+  reach w s -> threads s t = Some th -> t_watcher th = false -> t_born_closed th = true ->
+  t_call th = CDirect true c -> t_pc th = Fin r -> r = RetClosed.
+Proof. exact late_direct_gets_closed_error. Qed.
+Print Assumptions late_direct_gets_closed_error.
+
+Theorem closed_is_final : forall w s t th,
+  reach w s -> threads s t = Some th ->
+  (t_born_closed th = true -> closed s = true) /\ (t_born_done th = true -> done s = true).
+Proof. exact born_closed_stays_closed. Qed.
+Print Assumptions closed_is_final.
